@@ -317,7 +317,7 @@ func c09FileWriterInterleaved(r *Run) {
 				appended = append(appended, w9CUB(out))
 				hist = append(hist, fmt.Sprintf("AppendHeader(%d bytes)", len(buf)))
 			default:
-				n := []int{1, 2, 5, 63, 64, 65, 300}[r.Rng.Intn(7)]
+				n := []int{0, 0, 1, 2, 5, 63, 64, 65, 300}[r.Rng.Intn(9)] // 0: a block of no rows and no bytes
 				data := make([]byte, n)
 				for i := range data {
 					data[i] = byte(r.Rng.Intn(64) * 2)
